@@ -37,7 +37,7 @@ func (g *Gen) writeReplay(o *Oblig, dir, work, repo, verif, prop string) (string
 		rep["query_file"] = obFile(work, o)
 	}
 	reproduced := false
-	if o.fx != nil && o.Status == "failed" {
+	if o.fx != nil && (o.Status == "failed" || o.Status == "unknown") {
 		if r := g.replayOnRealCode(o, work, repo, verif); r != nil {
 			for k, v := range r {
 				rep[k] = v
